@@ -204,6 +204,16 @@ class EnvelopeWorld(World):
             sig = rfc8032.sign(seed, data).hex()
             self.ledger.record_raw(pub, ph, sig)
             return {"signature": sig}, False
+        if impl == "otherhash":
+            # a signature made over a digest other than SHA-256 (the header names the algorithm): never a valid signature
+            # in this format, so nothing is recorded in the ledger
+            import hashlib
+            hdr = bytes.fromhex(hdr_hex)
+            alg = OTHER_HASHES.get(hdr[3], "sha512")
+            dig = hashlib.new(alg, data + hdr + b"\x04\xff" + len(hdr).to_bytes(4, "big")).digest()
+            sig = rfc8032.sign(seed, dig).hex()
+            self.run.fault("signature_over_other_digest")
+            return {"other_headers": hdr.hex(), "signature": sig}, True
         if impl in ("simgpg", "indep-pgp"):
             hdr = bytes.fromhex(hdr_hex) if hdr_hex else self.gpgstub.headers_for(self.keys.fpr[i], int(self.clock) % 2**32)
             dig = pgp_digest(data, hdr)
@@ -248,6 +258,11 @@ class EnvelopeWorld(World):
 
     def op_new_env(self, op):
         payload = op["payload"]
+        if op.get("pad") and isinstance(payload, dict):
+            # a large record (repodata-sized): the op carries only the size, the content is a fixed pattern
+            payload = dict(payload)
+            payload["packages"] = {"pkg-%06d" % i: {"sha256": "%064x" % (i * 0x9E3779B97F4A7C15 % 2**256), "size": i} for i in range(op["pad"] // 100)}
+            self.run.probe("large_payload")
         src = copy.deepcopy(payload)
         if op.get("tuples"):
             src = _tuplify(src, 0)          # tuples are a supported payload type of the library (serialized as arrays)
@@ -333,7 +348,7 @@ class EnvelopeWorld(World):
             self.run.violate(("C09",), "sign-touched-others", "signing changed another entry or the payload")
         self.run.probe("sign_" + impl)
         # immediately verifiable with that key authorised
-        gpg = impl in ("lib-gpg", "simgpg", "indep-pgp")
+        gpg = impl in ("lib-gpg", "simgpg", "indep-pgp", "otherhash")
         o = self.calls.call("verify_signable", E, [pub], 1, gpg=gpg)
         self._judge(E, [pub], 1, gpg, o, ctx="after-sign")
 
@@ -558,6 +573,59 @@ class EnvelopeWorld(World):
                              "verify_signature %s although the signature is %s" % ("returned" if o.ok else "raised " + o.cls, "valid" if valid else "invalid"),
                              "raw-primitive-wrong:" + ("accept" if o.ok else o.cls))
 
+    def _twin_of(self, payload, kind):
+        """A different JSON value that collides with `payload` under a weak summary (length + CRC-32 of the canonical
+        bytes, or Python ==).  None if this payload has no such twin."""
+        import json as _json
+        import twins
+        if kind == "pyeq":
+            t = twins.python_eq_twin(payload)
+            return None if t is None or refcanon(t[0]) == refcanon(payload) else t[0]
+        data = refcanon(payload)
+        # longest run of characters that stay inside a JSON string when their low bits flip
+        best, cur = (0, 0), None
+        for i, c in enumerate(data + b"\x00"):
+            ok = c in twins._SAFE
+            if ok and cur is None:
+                cur = i
+            if not ok and cur is not None:
+                if i - cur > best[1] - best[0]:
+                    best = (cur, i)
+                cur = None
+        if best[1] - best[0] < 12:
+            return None
+        tb = twins.crc32_twin(data, best[0], best[1])
+        if tb is None:
+            return None
+        try:
+            v = _json.loads(tb)
+        except ValueError:
+            return None
+        if refcanon(v) != tb or tb == data:
+            return None
+        return v
+
+    def op_twin(self, op):
+        """The verifier sees the genuine envelope, then the same signature map over a twin payload (same length and
+        CRC-32 of the canonical bytes, or == in Python): a remembered verdict keyed by anything weaker than the data
+        itself turns the second call into an acceptance."""
+        e = op["env"]
+        if e >= len(self.envs):
+            return self.run.ev("noop")
+        E = self.envs[e]
+        tw = self._twin_of(E["signed"], op["kind"])
+        if tw is None:
+            return self.run.ev("noop")
+        auth, t, gpg = op["auth"], op["t"], op["gpg"]
+        o = self.calls.call("verify_signable", E, auth, t, gpg=gpg)
+        self._judge(E, auth, t, gpg, o, ctx="before-twin")
+        if self.run.stop:
+            return
+        E2 = {"signatures": copy.deepcopy(E["signatures"]), "signed": tw}
+        self.run.fault("twin_payload_" + op["kind"])
+        o2 = self.calls.call("verify_signable", E2, auth, t, gpg=gpg)
+        self._judge(E2, auth, t, gpg, o2, ctx="twin-" + op["kind"])
+
     def op_bulk_junk(self, op):
         """Many junk entries at once (a flooded signature map)."""
         import random
@@ -630,7 +698,8 @@ class EnvelopeWorld(World):
             n_ind = self._indep_count(E, auth, gpg) if shape_ok and keylist_ok(auth) else 0
             if args_ok and n_ind >= t:
                 raise HarnessError("ledger says %d, independent verifier says %d >= t=%r" % (k, n_ind, t))
-            run.violate(("C01", "C09", "C10") if gpg else ("C01", "C09"), "accepted-without-quorum",
+            run.violate(self.history_tag(("C01", "C09", "C10") if gpg else ("C01", "C09"), o, lambda: self.calls.raw("verify_signable", E, auth, t, gpg=gpg)),
+                        "accepted-without-quorum",
                         "%s: verify_signable accepted with %d valid authorised signer(s), threshold %r, gpg=%r, "
                         "args_ok=%r" % (ctx, k, t, gpg, args_ok), "accepted-without-quorum")
             return
@@ -647,7 +716,8 @@ class EnvelopeWorld(World):
                         return
                     raise HarnessError("ledger says %d >= t, independent verifier says %d" % (k, n_ind))
                 site = __import__("seams").exc_site(self.lib, o.exc)
-                run.violate(("C02", "C09", "C10") if gpg else ("C02", "C09"), "rejected-with-quorum",
+                run.violate(self.history_tag(("C02", "C09", "C10") if gpg else ("C02", "C09"), o, lambda: self.calls.raw("verify_signable", E, auth, t, gpg=gpg)),
+                            "rejected-with-quorum",
                             "%s: verify_signable raised %s (%s) at %s although %d >= %d distinct authorised keys "
                             "have valid %s signatures; stdout encoding %s"
                             % (ctx, o.cls, str(o.exc)[:160], site, k, t, "OpenPGP" if gpg else "raw",
@@ -689,8 +759,18 @@ class EnvelopeWorld(World):
         h = self.h
         nk = len(self.keys)
         if not self.envs or (len(self.envs) < 3 and rng.random() < 0.08):
-            return {"op": "new_env", "payload": gen.gen_payload(rng, h.get("nonfinite", True)),
-                    "gpg": rng.random() < h["gpg_bias"], "tuples": rng.random() < 0.2}
+            pl = gen.gen_payload(rng, h.get("nonfinite", True))
+            k = rng.random()
+            if k < 0.15:
+                pl = {"name": "pkg%d" % rng.randint(0, 9), "version": "1.%d" % rng.randint(0, 9), "build_number": rng.randint(0, 5), "size": rng.randint(1, 10**7),
+                      "sha256": "%064x" % rng.getrandbits(256), "md5": "%032x" % rng.getrandbits(128), "depends": ["python >=3.%d" % rng.randint(6, 12)],
+                      "timestamp": float(rng.randint(10**9, 2 * 10**9)) if rng.random() < 0.5 else rng.randint(10**9, 2 * 10**9)}
+            elif k < 0.19:
+                pl = {"signatures": {}, "signed": pl}           # counter-signing: the payload is itself an envelope
+            op = {"op": "new_env", "payload": pl, "gpg": rng.random() < h["gpg_bias"], "tuples": rng.random() < 0.2}
+            if isinstance(pl, dict) and rng.random() < 0.02:
+                op["pad"] = rng.choice([70000, 70000, 150000, 400000])
+            return op
         e = rng.randrange(len(self.envs))
         E = self.envs[e]
         gpg = self.env_gpg[e]
@@ -709,6 +789,10 @@ class EnvelopeWorld(World):
             op = {"op": "sign", "env": e, "key": i, "impl": impl, "dt": dt, "fresh": rng.random() < 0.5}
             if impl in ("simgpg", "indep-pgp") and rng.random() < 0.5:
                 op["hdr"] = _gen_headers(rng)
+                if rng.random() < 0.4:
+                    # structurally consistent version-4 header naming some algorithm pair (the digest is SHA-256 all the same)
+                    op["hdr"] = _v4_header(rng, self.keys.fpr[i], rng.getrandbits(31), rng.choice([8, 8, 9, 10, 11, 2, 1, 12, 0, 255]),
+                                           rng.choice([0, 0, 1, 0x10, 0x13]), rng.choice([22, 22, 22, 1, 19])).hex()
             if impl in ("simgpg", "indep-pgp") and rng.random() < 0.3:
                 op["see_also"] = True
             return op
@@ -734,9 +818,13 @@ class EnvelopeWorld(World):
             k = rng.randint(1, min(nk, 4))
             return {"op": "order_check", "payload": gen.gen_payload(rng, h.get("nonfinite", True)),
                     "order": [rng.randrange(nk) for _ in range(k)], "dt": dt}
-        if r < 0.90:
+        if r < 0.87:
             return {"op": "reorder", "env": e, "rot": rng.randint(0, 5), "rev": rng.random() < 0.5,
                     "payload_rev": rng.random() < 0.5, "dt": dt}
+        if r < 0.895 and rate > 0:
+            auth = self._gen_auth(rng, E, wellformed=True)
+            kk = len(counted_keys(self.ledger, E["signed"], E["signatures"], auth, gpg))
+            return {"op": "twin", "env": e, "kind": rng.choice(["crc", "crc", "pyeq"]), "auth": auth, "t": max(1, kk), "gpg": gpg, "dt": dt}
         if r < 0.905 and rate > 0:
             auth = self._gen_auth(rng, E, wellformed=True)
             kk = len(counted_keys(self.ledger, E["signed"], E["signatures"], auth, gpg))
@@ -871,6 +959,10 @@ class EnvelopeWorld(World):
             a = rng.randrange(nk)
             impl = "indep-raw" if gpg else "simgpg"
             return {"op": "sign", "env": e, "key": a, "impl": impl if impl != "indep-raw" else "lib-raw"}
+        if kind == "other_hash":
+            a = rng.randrange(nk)
+            hid = rng.choice(sorted(OTHER_HASHES))
+            return {"op": "sign", "env": e, "key": a, "impl": "otherhash", "hdr": _v4_header(rng, self.keys.fpr[a], rng.getrandbits(31), hid).hex()}
         if kind == "many_junk":
             return {"op": "file", "kind": kind, "env": e, "src": ["lit", gen.junk_entry(rng)],
                     "under": ["lit", gen.junk_key(rng, self.keys.pub)]}
@@ -890,7 +982,21 @@ class EnvelopeWorld(World):
 
 
 ATTACKS = ["misfile", "respell", "replay", "cross_env", "junk", "junk_value", "bitflip", "truncate",
-           "pgp_games", "drop", "wrong_mode", "many_junk"]
+           "pgp_games", "drop", "wrong_mode", "many_junk", "other_hash"]
+
+OTHER_HASHES = {1: "md5", 2: "sha1", 9: "sha384", 10: "sha512", 11: "sha224", 12: "sha3_256", 14: "sha3_512"}
+
+
+def _v4_header(rng, fpr_hex, t, hash_id=8, sigtype=0, pubalg=22):
+    """A structurally consistent version-4 hashed section: version, type, public-key algorithm, hash algorithm,
+    two-octet subpacket length, subpackets (issuer fingerprint, creation time and sometimes more)."""
+    sub = bytes([0x16, 0x21, 0x04]) + bytes.fromhex(fpr_hex) + bytes([0x05, 0x02]) + int(t % 2**32).to_bytes(4, "big")
+    if rng.random() < 0.3:
+        sub += bytes([0x05, 0x03]) + rng.getrandbits(32).to_bytes(4, "big")               # signature expiration time
+    if rng.random() < 0.2:
+        note = bytes(rng.getrandbits(8) for _ in range(rng.randint(1, 30)))
+        sub += bytes([len(note) + 1, 0x14]) + note                                          # notation-like
+    return bytes([4, sigtype, pubalg, hash_id]) + len(sub).to_bytes(2, "big") + sub
 
 
 def jdump_safe(v):
